@@ -7,9 +7,12 @@
 //! the Gallina `lint_fix_parsed false` predicts (group `lintloop`).
 //! Part B (worker processes with RAYON_NUM_THREADS = 1, 4, 16):
 //! * scheduling: `lint_paths` on batches (subsets, permutations, directories, same content under different
-//!   names; single files / single directories / no argument / nothing but ignored files; several ignore
-//!   predicates; two rule sets) with reused and fresh `Linter`s, compared with `lint_string` per file; the
-//!   `Sched` model is replayed on the recorded expansion lists (group `sched`);
+//!   names; single files / single directories / no argument / nothing but ignored files; the same file
+//!   reached through several arguments: repeated, overlapping, spelled differently (`./`, absolute, `..`,
+//!   doubled slashes, trailing slash, symbolic links to a file and to a directory); several ignore
+//!   predicates; two rule sets) with reused and fresh `Linter`s, compared with `lint_string` per file
+//!   *identity* (canonical path); the `Sched` model (expansion loop with its seen-set + fan-in) is
+//!   replayed on the recorded expansion lists (group `sched`);
 //! * verdict: the same invocations with an `OutputStreamFormatter` (verbosity 0, 1, 2, -1) or a
 //!   `JsonFormatter` attached, and `lint_string` sequences on one linter + formatter: `has_fail`, the
 //!   number of files reported and the JSON collection are those of the files linted alone, whatever the
@@ -288,6 +291,10 @@ fn rel_of(wd: &str, p: &str) -> String {
     let p = p.strip_prefix(wd).map(|x| x.trim_start_matches('/')).unwrap_or(p);
     p.trim_start_matches("./").to_string()
 }
+fn canon_rel(wd: &str, p: &str) -> String {
+    let c = std::fs::canonicalize(p).map(|c| c.to_string_lossy().to_string()).unwrap_or_else(|_| p.to_string());
+    rel_of(wd, &c)
+}
 fn mk_cfg_linter(src: &str, fmt: Option<Arc<dyn Formatter>>) -> Linter {
     Linter::new(FluffConfig::from_source(src, None), fmt, None, false)
 }
@@ -300,9 +307,78 @@ fn fail_counts(vs: &[SQLBaseError]) -> (usize, usize, bool) {
 #[derive(Clone)]
 struct Batch {
     cls: &'static str,
+    /// path arguments; `{WD}` stands for the (absolute, canonical) working directory of the worker
     args: Vec<String>,
     ign: usize,
     cfg: usize,
+}
+impl Batch {
+    fn eff_args(&self, wd: &str) -> Vec<String> {
+        self.args.iter().map(|a| a.replace("{WD}", wd)).collect()
+    }
+}
+/// What one invocation is expected to do, computed without `lint_paths`: the expansion of every
+/// argument as *spelled* paths (hook `verif_paths_from_path`; a file argument is taken verbatim), the
+/// file each spelling reaches (identity = canonical path), the ignored files and the selected ones
+/// (every file some argument reaches and the ignorer does not skip, once, in order of first reach).
+struct Plan {
+    spell: Vec<String>,
+    exps: Vec<Vec<usize>>,
+    ident: Vec<usize>,
+    ignored: Vec<usize>,
+    selected: Vec<usize>,
+    /// some file is reached more than once (repeated / overlapping / respelled arguments, links)
+    multi_reach: bool,
+}
+/// Other spellings of a path of the tree (file or directory).
+fn respell(rng: &mut Rng, rel: &str) -> String {
+    let split = rel.rsplit_once('/');
+    match rng.below(8) {
+        0 => rel.to_string(),
+        1 => format!("./{}", rel),
+        2 => format!("{{WD}}/{}", rel),
+        3 => match split {
+            Some((par, name)) => format!("{}/../{}/{}", par, par.rsplit('/').next().unwrap_or(par), name),
+            None => format!("d4/../{}", rel),
+        },
+        4 => match split {
+            Some((par, name)) => format!("{}//{}", par, name),
+            None => format!(".//{}", rel),
+        },
+        5 => format!("{{WD}}/./{}", rel),
+        6 => format!("d2/sub/../../{}", rel),
+        _ => {
+            // through a symbolic link, where there is one
+            if rel == "d1/a.sql" {
+                "links/alias.sql".to_string()
+            } else if rel == "d4" || rel.starts_with("d4/") {
+                format!("links/dlink{}", &rel[2..])
+            } else {
+                format!("././{}", rel)
+            }
+        }
+    }
+}
+/// The same file reached through several arguments: a few files / directories of the tree, each under
+/// two or three spellings, now and then together with the directory above; in any order.
+fn gen_alias(rng: &mut Rng) -> Batch {
+    let dirs = ["d1", "d2", "d3", "d4", "d2/sub", "d2/sub/deep", "d3/skip_dir"];
+    let mut args: Vec<String> = vec![];
+    for _ in 0..(1 + rng.below(3)) {
+        let base: String = if rng.chance(1, 3) { dirs[rng.below(dirs.len())].to_string() } else { TREE[rng.below(TREE.len())].0.to_string() };
+        for _ in 0..(2 + rng.below(2)) {
+            args.push(respell(rng, &base));
+        }
+        if rng.chance(1, 2) {
+            if let Some((par, _)) = base.rsplit_once('/') {
+                args.push(if rng.chance(1, 2) { par.to_string() } else { respell(rng, par) });
+            } else if rng.chance(1, 4) {
+                args.push(".".to_string());
+            }
+        }
+    }
+    rng.shuffle(&mut args);
+    Batch { cls: "aliased-arguments", args, ign: if rng.chance(1, 2) { 0 } else { rng.below(N_IGNORERS) }, cfg: rng.below(BCFG.len()) }
 }
 /// Distinct, non-overlapping path arguments: each top-level directory is given either as a whole,
 /// or through some of its files / sub-directories.
@@ -404,6 +480,48 @@ fn batches(args: &Args) -> Vec<Batch> {
     v.push(b("only-ignored", &["d4/o.sql"], 3, 0));
     v.push(b("single-file", &["d2/sub/g.sql"], 2, 0));
     v.push(b("single-file", &["top.sql"], 2, 1));
+    // the same file reached through more than one argument: repeated arguments, a directory and something
+    // inside it, the same file / directory spelled differently (both orders: which spelling comes first
+    // decides which one a de-duplication keeps)
+    for a in [&["d1/a.sql", "d1/a.sql"][..], &["d1", "d1"], &["top.sql", "d2", "top.sql", "d2"]] {
+        v.push(b("repeated-argument", a, 0, 0));
+    }
+    for a in [&["d1", "d1/a.sql"][..], &["d1/a.sql", "d1"], &["d2", "d2/sub"], &["d2/sub/deep", "d2/sub", "d2"], &[".", "d1", "top.sql"], &["d3/skip_i.sql", "d3"], &["d4/o.sql", ".", "d4"]] {
+        v.push(b("overlapping-arguments", a, 0, 0));
+    }
+    v.push(b("overlapping-arguments", &["d2", "d2/sub", "d2/sub/g.sql"], 2, 1));
+    for a in [
+        &["d1/a.sql", "./d1/a.sql"][..],
+        &["./d1/a.sql", "d1"],
+        &["d1", "./d1/a.sql"],
+        &["d1", "{WD}/d1/a.sql"],
+        &["{WD}/d1/a.sql", "d1/a.sql"],
+        &["d1/../d1/b.sql", "d1"],
+        &["d1//a.sql", "d1"],
+        &["./d1", "d1/a.sql"],
+        &["d1/", "d1"],
+        &["d1/.", "d1/m.sql"],
+        &["{WD}/d2", "d2/sub/g.sql", "./d2/sub"],
+        &["links/alias.sql", "d1/a.sql"],
+        &["d1", "links/alias.sql"],
+        &["links/alias.sql"],
+        &["links"],
+        &["links/dlink", "d4"],
+        &["d4/n.sql", "links/dlink"],
+        &["links/dlink/o.sql", "d4/o.sql", "./d4/o.sql"],
+        &["./top.sql", "top.sql", "{WD}/top.sql", ".//top.sql", "."],
+        &["./d3/skip_i.sql", "d3"],
+        &["d3", "d3/../d3/skip_dir/l.sql", "d3//j.sql"],
+        &["{WD}"],
+        &["{WD}", "."],
+    ] {
+        v.push(b("respelled-argument", a, 0, 0));
+    }
+    v.push(b("respelled-argument", &["./d1/b.sql", "d1/b.sql", "d2/../d1/b.sql"], 1, 1));
+    v.push(b("respelled-argument", &["d2/sub/../../top.sql", "top.sql", "d2/./sub", "d2"], 2, 0));
+    for _ in 0..(if args.thorough() { 150 } else { 24 }) {
+        v.push(gen_alias(&mut rng));
+    }
     for _ in 0..(if args.thorough() { 120 } else { 16 }) {
         v.push(gen_small(&mut rng));
     }
@@ -438,19 +556,27 @@ impl Worker {
     fn dok(&mut self, cls: &str, n: usize) {
         self.emit(json!({"t":"dcount","cls":cls,"n":n}));
     }
+    /// The file a path reaches: its canonical path (symbolic links, `.`, `..`, doubled slashes resolved;
+    /// relative paths are relative to the working directory = `wd`), relative to `wd`.
+    fn canon_rel(&self, p: &str) -> String {
+        canon_rel(&self.wd, p)
+    }
     fn file_id(&self, p: &str) -> usize {
-        let r = rel_of(&self.wd, p);
+        let r = self.canon_rel(p);
         TREE.iter().position(|x| x.0 == r).unwrap_or(9999)
     }
 }
 
 /// One `lint_paths` call on a batch; every clause of the property that is visible in the result, in
 /// the formatter attached to the linter (if any) and the case for the `sched` model.
-fn run_batch(w: &mut Worker, b: &Batch, input: &Value, linter: &mut Linter, run_name: &str, exps: &[Vec<usize>], ignored: &[usize], selected: &[usize], stream: Option<(&Arc<OutputStreamFormatter>, i32)>, jsonf: Option<&Arc<JsonFormatter>>) -> Option<(u64, bool)> {
+fn run_batch(w: &mut Worker, b: &Batch, input: &Value, linter: &mut Linter, run_name: &str, plan: &Plan, stream: Option<(&Arc<OutputStreamFormatter>, i32)>, jsonf: Option<&Arc<JsonFormatter>>) -> Option<(u64, bool)> {
     let wd = w.wd.clone();
     let ign = b.ign;
-    let ignorer = move |p: &Path| ignored_rel(ign, &rel_of(&wd, &p.to_string_lossy()));
-    let paths: Vec<PathBuf> = b.args.iter().map(PathBuf::from).collect();
+    let (ignored, selected) = (&plan.ignored, &plan.selected);
+    // the ignorer is a property of the file (it looks at the canonical path), not of the spelling
+    let ignorer = move |p: &Path| ignored_rel(ign, &canon_rel(&wd, &p.to_string_lossy()));
+    let eff = b.eff_args(&w.wd);
+    let paths: Vec<PathBuf> = eff.iter().map(PathBuf::from).collect();
     let r = catch(|| {
         let res = linter.lint_paths(paths, false, &ignorer);
         res.paths.iter().map(|d| (d.path.clone(), d.files.iter().map(|f| (f.path.clone(), canon(&f.violations), f.patches.len(), fail_counts(&f.violations))).collect::<Vec<_>>())).collect::<Vec<_>>()
@@ -465,10 +591,11 @@ fn run_batch(w: &mut Worker, b: &Batch, input: &Value, linter: &mut Linter, run_
     let refs = w.reference.clone();
     let reference = &refs[b.cfg];
     // with no argument the working directory is linted
-    let want_dirs: Vec<String> = if b.args.is_empty() { vec![w.wd.clone()] } else { b.args.clone() };
+    let want_dirs: Vec<String> = if b.args.is_empty() { vec![w.wd.clone()] } else { eff.clone() };
     let mut fails: Vec<(String, String)> = vec![];
     let mut seen: HashMap<usize, usize> = HashMap::new();
     let mut observed: Vec<Vec<(usize, usize)>> = vec![];
+    let mut observed_ids: Vec<usize> = vec![];
     let mut counts: Vec<(usize, usize)> = vec![];
     let mut dig: Vec<(String, u64)> = vec![];
     if dirs.len() != want_dirs.len() {
@@ -481,8 +608,14 @@ fn run_batch(w: &mut Worker, b: &Batch, input: &Value, linter: &mut Linter, run_
         let mut bucket = vec![];
         for (p, v, np, fc) in files {
             let id = w.file_id(p);
-            let p = rel_of(&w.wd, p);
+            // the spelling under which the file is stored (the linter keeps the expanded path verbatim)
+            let sid = plan.spell.iter().position(|s| s == p).unwrap_or(9000 + observed_ids.len());
+            let spelled = rel_of(&w.wd, p);
+            let p = w.canon_rel(p);
             *seen.entry(id).or_default() += 1;
+            if sid >= 9000 {
+                fails.push((format!("c07-unexpanded-path:{}", p), format!("the result holds {:?}, which is not a path of any argument's expansion", spelled)));
+            }
             let rid = match reference.get(id) {
                 Some(e) if e.viols == *v => e.rid,
                 Some(e) => {
@@ -494,10 +627,11 @@ fn run_batch(w: &mut Worker, b: &Batch, input: &Value, linter: &mut Linter, run_
             if *np != 0 {
                 fails.push((format!("c07-lint-patches:{}", p), format!("{}: lint-only result carries {} patches", p, np)));
             }
-            if di < exps.len() && !exps[di].contains(&id) {
-                fails.push((format!("c07-wrong-dir:{}", p), format!("{} stored under argument {:?}", p, dpath)));
+            if di < plan.exps.len() && !plan.exps[di].iter().any(|s| plan.ident[*s] == id) {
+                fails.push((format!("c07-wrong-dir:{}", p), format!("{} (as {:?}) stored under argument {:?}", p, spelled, dpath)));
             }
-            bucket.push((id, rid));
+            bucket.push((sid, rid));
+            observed_ids.push(id);
             counts.push((fc.0, fc.1));
             dig.push((p.clone(), fnv(&format!("{:?}", v))));
         }
@@ -507,7 +641,8 @@ fn run_batch(w: &mut Worker, b: &Batch, input: &Value, linter: &mut Linter, run_
     for s in selected {
         let n = seen.get(s).copied().unwrap_or(0);
         if n != 1 {
-            fails.push((format!("c07-not-exactly-once:{}", name(*s)), format!("selected file {} appears {} times in the result", name(*s), n)));
+            let as_: Vec<String> = dirs.iter().flat_map(|d| d.1.iter()).filter(|f| w.file_id(&f.0) == *s).map(|f| f.0.replace(&w.wd, "<wd>")).collect();
+            fails.push((format!("c07-not-exactly-once:{}", name(*s)), format!("selected file {} appears {} times in the result of lint_paths {:?} (as {:?})", name(*s), n, eff.iter().map(|a| a.replace(&w.wd, "<wd>")).collect::<Vec<_>>(), as_)));
         }
     }
     for id in seen.keys() {
@@ -517,7 +652,7 @@ fn run_batch(w: &mut Worker, b: &Batch, input: &Value, linter: &mut Linter, run_
     }
     // the verdict of the invocation as the formatter holds it
     let failing: Vec<&str> = selected.iter().filter(|s| reference.get(**s).is_some_and(|e| e.fails > 0)).map(|s| name(*s)).collect();
-    let stored: Vec<&str> = observed.iter().flatten().map(|x| name(x.0)).collect();
+    let stored: Vec<&str> = observed_ids.iter().map(|x| name(*x)).collect();
     let mut verdict = false;
     if let Some((f, v)) = stream {
         let got = f.has_fail();
@@ -568,17 +703,18 @@ fn run_batch(w: &mut Worker, b: &Batch, input: &Value, linter: &mut Linter, run_
     if stream.is_none() && jsonf.is_none() {
         let order: Vec<usize> = observed.iter().flatten().map(|x| x.0).collect();
         let g_args = g_tuple(&[
-            g_list(exps.iter().map(|e| g_list(e.iter().map(|i| i.to_string())))),
+            g_list(plan.exps.iter().map(|e| g_list(e.iter().map(|i| i.to_string())))),
+            g_list(plan.ident.iter().enumerate().map(|(s, f)| g_tuple(&[s.to_string(), f.to_string()]))),
             g_list(ignored.iter().map(|i| i.to_string())),
             g_list(reference.iter().enumerate().map(|(i, e)| g_tuple(&[i.to_string(), e.rid.to_string()]))),
             g_list(order.iter().map(|i| i.to_string())),
         ]);
         let g_exp = g_list(observed.iter().map(|b| g_list(b.iter().map(|(i, r)| g_tuple(&[i.to_string(), r.to_string()])))));
-        let multi = b.args.len() > 1 && selected.len() > 2;
+        let multi = b.args.len() > 1 && (selected.len() > 2 || plan.multi_reach);
         w.emit(json!({"t":"wcase","group":"sched","cls":b.cls,"nontrivial":multi,"args":g_args,"exp":g_exp,
-            "sample":{"input":input,"run":run_name,"expansions":exps,"observed":observed}}));
+            "sample":{"input":input,"run":run_name,"spellings":plan.spell.iter().map(|s| s.replace(&w.wd, "<wd>")).collect::<Vec<_>>(),"expansions":plan.exps,"file_of_spelling":plan.ident,"observed":observed}}));
     }
-    let reordered = observed.iter().flatten().map(|x| x.0).collect::<Vec<_>>() != selected;
+    let reordered = observed_ids != *selected;
     dig.sort();
     Some((fnv(&format!("{:?}|{}", dig, if stream.is_some() || jsonf.is_some() { verdict as u8 } else { 2 })), reordered))
 }
@@ -587,15 +723,43 @@ fn batch_part(w: &mut Worker, bs: &[Batch]) {
     let mut reused: Vec<Linter> = BCFG.iter().map(|c| mk_cfg_linter(c.1, None)).collect();
     let mut reordered = 0usize;
     let mut runs = 0usize;
+    let mut multi_reached = 0usize;
     for (bi, b) in bs.iter().enumerate() {
         let input = json!({"batch":b.args,"threads":w.threads,"ignorer":b.ign,"config":b.cfg});
         let src = BCFG[b.cfg].1;
         // expansion lists (hook) and ignored ids
         let probe = mk_cfg_linter(src, None);
-        let eff: Vec<String> = if b.args.is_empty() { vec![w.wd.clone()] } else { b.args.clone() };
-        let exps: Vec<Vec<usize>> = eff.iter().map(|a| if Path::new(a).is_file() { vec![w.file_id(a)] } else { probe.verif_paths_from_path(PathBuf::from(a)).iter().map(|p| w.file_id(p)).collect() }).collect();
+        let eff: Vec<String> = if b.args.is_empty() { vec![w.wd.clone()] } else { b.eff_args(&w.wd) };
+        let mut spell: Vec<String> = vec![];
+        let exps: Vec<Vec<usize>> = eff
+            .iter()
+            .map(|a| {
+                let e = if Path::new(a).is_file() { vec![a.clone()] } else { probe.verif_paths_from_path(PathBuf::from(a)) };
+                e.into_iter()
+                    .map(|p| match spell.iter().position(|s| *s == p) {
+                        Some(i) => i,
+                        None => {
+                            spell.push(p);
+                            spell.len() - 1
+                        }
+                    })
+                    .collect()
+            })
+            .collect();
+        let ident: Vec<usize> = spell.iter().map(|p| w.file_id(p)).collect();
         let ignored: Vec<usize> = TREE.iter().enumerate().filter(|(_, x)| ignored_rel(b.ign, x.0)).map(|(i, _)| i).collect();
-        let selected: Vec<usize> = exps.iter().flatten().copied().filter(|i| !ignored.contains(i)).collect();
+        let mut reached: Vec<usize> = vec![];
+        let mut multi_reach = false;
+        for s in exps.iter().flatten() {
+            if reached.contains(&ident[*s]) {
+                multi_reach = true;
+            } else {
+                reached.push(ident[*s]);
+            }
+        }
+        let selected: Vec<usize> = reached.iter().copied().filter(|i| !ignored.contains(i)).collect();
+        multi_reached += multi_reach as usize;
+        let plan = Plan { spell, exps, ident, ignored, selected, multi_reach };
         let mut digests = vec![];
         // the result alone: the reused linter twice, then a fresh one
         for run in 0..3 {
@@ -606,7 +770,7 @@ fn batch_part(w: &mut Worker, bs: &[Batch]) {
             } else {
                 &mut reused[b.cfg]
             };
-            if let Some((d, r)) = run_batch(w, b, &input, linter, ["reused", "reused-again", "fresh"][run], &exps, &ignored, &selected, None, None) {
+            if let Some((d, r)) = run_batch(w, b, &input, linter, ["reused", "reused-again", "fresh"][run], &plan, None, None) {
                 digests.push(d);
                 reordered += r as usize;
                 runs += 1;
@@ -618,7 +782,7 @@ fn batch_part(w: &mut Worker, bs: &[Batch]) {
         for v in VERBOSITIES {
             let f = Arc::new(OutputStreamFormatter::new(None, true, v));
             let mut l = mk_cfg_linter(src, Some(f.clone()));
-            if let Some((d, _)) = run_batch(w, b, &input, &mut l, "stream-formatter", &exps, &ignored, &selected, Some((&f, v)), None) {
+            if let Some((d, _)) = run_batch(w, b, &input, &mut l, "stream-formatter", &plan, Some((&f, v)), None) {
                 if v >= 0 {
                     vdig.push(d);
                 }
@@ -626,13 +790,13 @@ fn batch_part(w: &mut Worker, bs: &[Batch]) {
         }
         let f = Arc::new(JsonFormatter::default());
         let mut l = mk_cfg_linter(src, Some(f.clone()));
-        if let Some((d, _)) = run_batch(w, b, &input, &mut l, "json-formatter", &exps, &ignored, &selected, None, Some(&f)) {
+        if let Some((d, _)) = run_batch(w, b, &input, &mut l, "json-formatter", &plan, None, Some(&f)) {
             vdig.push(d);
         }
         w.emit(json!({"t":"digest","batch":bi,"args":b.args,"input":input,"runs":digests,"verdict_runs":vdig}));
     }
     let threads = w.threads.clone();
-    w.emit(json!({"t":"wstat","threads":threads,"batches":bs.len(),"plain_runs":runs,"runs_with_completion_order_different_from_expansion_order":reordered}));
+    w.emit(json!({"t":"wstat","threads":threads,"batches":bs.len(),"plain_runs":runs,"batches_where_a_file_is_reached_more_than_once":multi_reached,"runs_with_completion_order_different_from_expansion_order":reordered}));
 }
 
 /// `lint_string` file by file on one linter with a formatter attached, in a given order: after every
@@ -946,6 +1110,10 @@ fn sched_worker(args: &Args, threads: &str) {
         std::fs::create_dir_all(path.parent().unwrap()).unwrap();
         std::fs::write(&path, SNIPPETS[s]).unwrap();
     }
+    // other ways to the same files: a symbolic link to a file and one to a directory
+    std::fs::create_dir_all(wd.join("links")).unwrap();
+    std::os::unix::fs::symlink("../d1/a.sql", wd.join("links/alias.sql")).unwrap();
+    std::os::unix::fs::symlink("../d4", wd.join("links/dlink")).unwrap();
     let f = std::fs::File::create(&args.out).unwrap();
     let mut w = Worker { wd: wd.to_string_lossy().to_string(), threads: threads.to_string(), reference: Rc::new(vec![]), wr: std::io::BufWriter::new(f) };
     let replay: Option<Value> = args.flag("--replay-input").map(|p| {
